@@ -3,7 +3,7 @@
 //! Monitor: abstract program -> reference encoder (expected image) and -> several randomised
 //! renderings -> real assembler through the public API (fresh thread each) -> compare images.
 
-use crate::exec::{assemble_fresh, AsmOutcome};
+use crate::exec::{assemble_after, assemble_fresh, AsmOutcome};
 use crate::refasm::*;
 use crate::util::{hash_bytes, CaseOut, Collector, Rng, J};
 use crate::Cfg;
@@ -15,7 +15,7 @@ pub const FLOORS: &[&str] = &[
     "neglit:BR", "neglit:LD", "neglit:JSR", "form:TRAP", "form:ALIAS", "form:NOT", "form:JMP",
     "form:JSRR", "form:RET", "form:PUSH", "form:POP", "form:RETS", "form:FILL", "form:BLKW",
     "form:STRINGZ", "orig:none", "orig:lt3000", "orig:3000", "orig:mid", "orig:ge8000",
-    "layout:wild", "layout:canonical", "accepted", "unencodable_rejected", "text_after_end:with_orig", "text_after_end:no_orig", "big_blkw_count",
+    "layout:wild", "layout:canonical", "accepted", "unencodable_rejected", "text_after_end:with_orig", "text_after_end:no_orig", "big_blkw_count", "second_assembly_on_its_thread",
 ];
 
 pub fn sweep_stmts() -> Vec<Stmt> {
@@ -414,7 +414,23 @@ pub fn check_program(
         out.class(if lay.wild { "layout:wild" } else { "layout:canonical" });
         let rendered = render(program, &lay, rng);
         let text = rendered.text.clone();
-        let res = on_thread(|| assemble_fresh(&text, stack));
+        let res = if rng.chance(1, 4) {
+            // as the second assembly on its thread (what `lace watch` and any library user do), after an
+            // earlier version of the same program: one more statement in front (every label one word
+            // further on) or the last label's statement missing
+            let mut earlier = program.clone();
+            let at = earlier.items.iter().position(|it| matches!(it, Item::Stmt { .. })).unwrap_or(0);
+            if rng.bool() {
+                earlier.items.insert(at, Item::Stmt { label: None, stmt: Stmt::AddI(0, 0, 0) });
+            } else if let Some(last) = earlier.items.iter().rposition(|it| matches!(it, Item::Stmt { label: Some(_), .. })) {
+                earlier.items.remove(last);
+            }
+            let before = render(&earlier, &Layout::canonical(), rng).text;
+            out.class("second_assembly_on_its_thread");
+            on_thread(|| assemble_after(&before, &text, stack))
+        } else {
+            on_thread(|| assemble_fresh(&text, stack))
+        };
         match res {
             Some(o) => outcomes.push((rendered.text, o)),
             None => {
